@@ -330,9 +330,21 @@ def run(ctx: Ctx, rep: Report) -> None:
     # speaks for the credentials the caller configured if a change of credential class replaces that model
     from . import c18
 
+    rep.rule("C07-R7", "a mismatching response always surfaces: InvalidResponseId is not a subclass of an exception the walk loop swallows", floor=1)
     rep.rule("C07-R6", "the plug-ins that test version and community are those selected by the credentials in use (a change of credential class replaces the message-processing model)", floor=1)
     sub = ctx.sub_run("c18", rep)
     rep.adopt_rules(sub, "C07-R6", ["C18-R4"])
+    from .common import check_not_quietly_caught
+
+    raised = []
+    for key in validators(ctx):
+        vfn = ctx.u.maybe_func(key)
+        if vfn is None:
+            continue
+        for n in own_nodes(vfn.node):
+            if isinstance(n, ast.Raise) and n.exc is not None:
+                raised += [c for c in (ctx.exc_classes(vfn, n.exc) or []) if c not in raised]
+    check_not_quietly_caught(ctx, rep, "C07-R7", raised, "raised for a response id that does not match")
 
 
 def check_community_model(ctx: Ctx, rep: Report, cls: ClassInfo, want_version: int, rule: str = "C07-R4") -> None:
